@@ -52,7 +52,15 @@ BLOCK_S = 10.0       # no progress for this long and no live member process => b
 HARD_S = 30.0        # no progress for this long => blocked in any case
 MODES = ("answer", "raise", "unknown", "exit")
 SOLVE_OPS = ("solve", "is_sat", "is_valid", "is_unsat")
-MODE_LETTER = {"raise": "R", "unknown": "U", "exit": "C"}
+# further ways in which a member can end without a verdict: SystemExit (sys.exit() inside solve()), KeyboardInterrupt and
+# another BaseException (none of them is an Exception: the child process just ends), and a solve() that returns
+# something that is not a bool (reported as UnknownSolverAnswerError since the F25c repair)
+EXTRA_FAIL_MODES = ("sysexit0", "sysexit1", "kbdint", "baseexc", "nonbool_none", "nonbool_str")
+FAIL_POOL = ("raise", "unknown", "exit") * 3 + EXTRA_FAIL_MODES
+ANY_POOL = ("answer",) * 5 + FAIL_POOL
+MODE_LETTER = {"raise": "R", "unknown": "U", "exit": "C", "sysexit0": "C", "sysexit1": "C", "kbdint": "C",
+               "baseexc": "C", "nonbool_none": "N", "nonbool_str": "N"}
+SILENT_MODES = ("exit", "sysexit0", "sysexit1", "kbdint", "baseexc")
 DELAYS = (0, 0, 0, 1, 2, 5, 10, 20, 50)
 # the repaired loop polls the queue every 100 ms: members that finish around a multiple of the polling interval
 # exercise the path "time-out, then look whether anybody is alive, then look into the queue once more"
@@ -145,6 +153,9 @@ def _install(env):
             return (not fnode_eval(f.arg(0), asg)) or fnode_eval(f.arg(1), asg)
         raise InternalSolverError("C19Member: unsupported node %s" % f)
 
+    class C19BaseException(BaseException):
+        pass
+
     class C19Member(IncrementalTrackingSolver):
         LOGICS = [QF_BOOL]
         OptionsClass = Opts
@@ -183,6 +194,18 @@ def _install(env):
                 raise SolverReturnedUnknownResultError()
             if self.mode == "exit":
                 os._exit(17)
+            if self.mode == "sysexit0":
+                sys.exit(0)
+            if self.mode == "sysexit1":
+                sys.exit(1)
+            if self.mode == "kbdint":
+                raise KeyboardInterrupt()
+            if self.mode == "baseexc":
+                raise C19BaseException("C19Member asked to fail with a BaseException")
+            if self.mode == "nonbool_none":
+                return None
+            if self.mode == "nonbool_str":
+                return "sat"
             mgr = self.environment.formula_manager
             fs = list(self.assertions) + list(assumptions or [])
             vs = sorted(set().union(*[f.get_free_variables() for f in fs]) if fs else [],
@@ -271,6 +294,9 @@ def _worker(cfg, wfd):
     """Run one configuration against the real Portfolio; one JSON line per finished script step on `wfd`."""
     os.setsid()
     out = os.fdopen(wfd, "w", buffering=1)
+    # members that end with KeyboardInterrupt / a BaseException make multiprocessing print a traceback: not ours
+    devnull = os.open(os.devnull, os.O_WRONLY)
+    os.dup2(devnull, 2)
 
     def emit(obj):
         out.write(json.dumps(obj) + "\n")
@@ -293,6 +319,15 @@ def _worker(cfg, wfd):
                    for m in cfg["members"]]
         p = Portfolio(members, environment=env, logic=QF_BOOL,
                       solver_options={"exit_on_exception": bool(cfg["eoe"])})
+        # twin: the same edits with push(k) / pop(n) replaced by k / n single calls (it never solves: no processes)
+        twin = Portfolio(members, environment=env, logic=QF_BOOL,
+                         solver_options={"exit_on_exception": bool(cfg["eoe"])})
+        canon = {}           # FNode -> index of the first assert step that produced it
+
+        def probe(rec):
+            live = list(p.assertions)
+            rec["assertions"] = [canon.get(f, -1) for f in live]
+            rec["twin"] = [canon.get(f, -1) for f in twin.assertions]
         winner = None
         last_sat = False
         for k, step in enumerate(cfg["script"]):
@@ -308,11 +343,23 @@ def _worker(cfg, wfd):
                 last_sat = False
             try:
                 if op == "assert":
-                    p.add_assertion(_to_fnode(mgr, syms, step[1]))
+                    fn = _to_fnode(mgr, syms, step[1])
+                    rec["fid"] = canon.setdefault(fn, k)
+                    p.add_assertion(fn)
+                    twin.add_assertion(fn)
+                    probe(rec)
                 elif op == "push":
-                    p.push()
+                    n = step[1] if len(step) > 1 else 1
+                    p.push(n)
+                    for _ in range(n):
+                        twin.push()
+                    probe(rec)
                 elif op == "pop":
-                    p.pop()
+                    n = step[1] if len(step) > 1 else 1
+                    p.pop(n)
+                    for _ in range(n):
+                        twin.pop()
+                    probe(rec)
                 elif op in SOLVE_OPS:
                     winner = None
                     if op == "solve":
@@ -329,6 +376,8 @@ def _worker(cfg, wfd):
                         winner = int(ext.name.split(" ")[0])
                     rec["winner"] = winner
                     rec["others_alive"] = _others_alive(ext)
+                    if op == "solve":
+                        probe(rec)       # (not after a one-shot shortcut: reading `assertions` pops its level)
                 elif op == "get_model":
                     m = p.get_model()
                     rec["model"] = {str(k_): v.is_true() for k_, v in m}
@@ -406,8 +455,11 @@ class _Job:
         sys.stderr.flush()
         pid = os.fork()
         if pid == 0:
-            os.close(r)
-            _worker(cfg, w)          # never returns
+            try:
+                os.close(r)
+                _worker(cfg, w)      # never returns
+            finally:
+                os._exit(3)
         os.close(w)
         self.pid = pid
         self.rfd = r
@@ -493,11 +545,18 @@ def gen_script(rng, ncycles):
     for c in range(ncycles):
         r = rng.random()
         if c > 0 and depth > 0 and r < 0.3:
-            script.append(["pop"])
-            depth -= 1
+            n = rng.choice([k for k in (1, 1, 2, 2, 3) if k <= depth])
+            script.append(["pop"] if n == 1 else ["pop", n])
+            depth -= n
         elif r < 0.6:
-            script.append(["push"])
-            depth += 1
+            n = rng.choice([1, 1, 1, 2, 3])
+            script.append(["push"] if n == 1 else ["push", n])
+            depth += n
+            if n > 1 and rng.random() < 0.5:
+                # something on an inner level that a later pop(n) has to remove as well
+                script.append(["assert", gen_formula(rng, 2)])
+                script.append(["push"])
+                depth += 1
         f = gen_formula(rng)
         if rng.random() < 0.15:
             f = ["and", f, ["not", f]]          # make some calls unsat
@@ -540,13 +599,13 @@ def gen_members(rng, n, shape):
         shape = "all-fail" if rng.random() < 0.6 else "mixed"
     for i in range(n):
         if shape == "all-fail":
-            mode = rng.choice(MODES[1:])
+            mode = rng.choice(FAIL_POOL)
         elif shape == "all-answer":
             mode = "answer"
         elif shape == "one-answer":
-            mode = rng.choice(MODES[1:])
+            mode = rng.choice(FAIL_POOL)
         else:
-            mode = rng.choice(MODES)
+            mode = rng.choice(ANY_POOL)
         ms.append({"mode": mode, "delay_ms": d0 if tie else rng.choice(delays), "pick": i})
     if shape == "one-answer":
         ms[rng.randrange(n)]["mode"] = "answer"
@@ -565,11 +624,18 @@ def gen_configs(ctx):
                              "members": [{"mode": a, "delay_ms": d[0], "pick": 0},
                                          {"mode": b, "delay_ms": d[1], "pick": 1}],
                              "script": gen_script(rng, 2)})
+    for m in EXTRA_FAIL_MODES:
+        for eoe, ms in ((False, [(m, 0), ("answer", 10)]), (True, [("answer", 0), (m, 5)]), (False, [(m, 2), (m, 2)]),
+                        (True, [(m, 0), ("raise", 20)])):
+            cfgs.append({"eoe": eoe, "members": [{"mode": a, "delay_ms": d, "pick": i} for i, (a, d) in enumerate(ms)],
+                         "script": gen_script(rng, 1)})
     # early failure + slow healthy member: the failing members end 0-20 ms after the start, the healthy ones answer
     # only after several polling periods of the repaired wait loop (0.1 s).  The parent must keep waiting while
     # *some* member is alive; the model (failures_ignored) allows exactly the healthy verdict -- for every failure mode
     # without exit_on_exception, and for silent deaths also with it.
-    slow = [(False, ["raise", "answer"]), (False, ["unknown", "answer"]), (False, ["exit", "answer"]),
+    slow = [(False, [m, "answer"]) for m in EXTRA_FAIL_MODES] + \
+           [(True, [m, "answer", "answer"]) for m in EXTRA_FAIL_MODES if m in SILENT_MODES] + \
+           [(False, ["raise", "answer"]), (False, ["unknown", "answer"]), (False, ["exit", "answer"]),
             (True, ["exit", "answer"]), (False, ["answer", "raise", "exit"]), (False, ["exit", "unknown", "answer", "raise"]),
             (True, ["exit", "answer", "exit"]), (False, ["unknown", "answer", "answer"])]
     n_slow_random = 8 if ctx.tier == "quick" else 150
@@ -578,20 +644,20 @@ def gen_configs(ctx):
             eoe, modes = slow[k]
         else:
             n = rng.choice([2, 3, 4])
-            modes = [rng.choice(MODES[1:]) for _ in range(n)]
+            modes = [rng.choice(FAIL_POOL) for _ in range(n)]
             for _ in range(rng.choice([1, 1, 2])):
                 modes[rng.randrange(n)] = "answer"
             if "answer" in modes and all(m == "answer" for m in modes):
-                modes[rng.randrange(n)] = rng.choice(MODES[1:])
-            eoe = all(m in ("answer", "exit") for m in modes) and rng.random() < 0.5
+                modes[rng.randrange(n)] = rng.choice(FAIL_POOL)
+            eoe = all(m == "answer" or m in SILENT_MODES for m in modes) and rng.random() < 0.5
         slow_d = rng.choice([250, 300, 350, 450, 600])
         cfgs.append({"eoe": eoe, "shape": "early-failure-slow-healthy",
                      "members": [{"mode": m, "pick": i,
                                   "delay_ms": (slow_d + rng.choice([0, 0, 5, 60])) if m == "answer"
                                   else rng.choice([0, 1, 5, 10, 20])}
                                  for i, m in enumerate(modes)],
-                     "script": gen_script(rng, rng.choice([1, 2]))})
-    n_random = 260 if ctx.tier == "quick" else 6000
+                     "script": gen_script(rng, 1 if k < len(slow) else rng.choice([1, 2]))})
+    n_random = 200 if ctx.tier == "quick" else 6000
     shapes = ["mixed"] * 5 + ["all-fail"] * 2 + ["all-answer"] * 2 + ["one-answer"] * 2 + ["poll"] * 2
     for _ in range(n_random):
         n = rng.choice([2, 3, 3, 4, 4])
@@ -634,6 +700,8 @@ def py_allowed(cfg, truth):
         exn.add("err:InternalSolverError")
     if "unknown" in modes:
         exn.add("err:SolverReturnedUnknownResultError")
+    if any(m.startswith("nonbool") for m in modes):
+        exn.add("err:UnknownSolverAnswerError")
     v = {"v:T" if truth else "v:F"}
     if not cfg["eoe"]:
         return v if answers else {"err:*"}
@@ -650,10 +718,43 @@ def walk(cfg):
         if step[0] == "assert":
             stack.append(step[1])
         elif step[0] == "push":
-            marks.append(len(stack))
+            for _ in range(step[1] if len(step) > 1 else 1):
+                marks.append(len(stack))
         elif step[0] == "pop":
-            del stack[marks.pop():]
+            for _ in range(step[1] if len(step) > 1 else 1):
+                del stack[marks.pop():]
     return out
+
+
+def live_ids(cfg):
+    """Indices of the assert steps whose formula is live AFTER every script step (same bookkeeping as `walk`)."""
+    stack, marks, out = [], [], []
+    for k, step in enumerate(cfg["script"]):
+        if step[0] == "assert":
+            stack.append(k)
+        elif step[0] == "push":
+            for _ in range(step[1] if len(step) > 1 else 1):
+                marks.append(len(stack))
+        elif step[0] == "pop":
+            for _ in range(step[1] if len(step) > 1 else 1):
+                del stack[marks.pop():]
+        out.append(list(stack))
+    return out
+
+
+def stack_line(cfg):
+    """Request for the Lean assertion-stack specification (`Spec/AssertStack.lean` through the driver)."""
+    toks = []
+    for k, step in enumerate(cfg["script"]):
+        if step[0] == "assert":
+            toks.append("a%d" % k)
+        elif step[0] == "push":
+            toks.append("u%d" % (step[1] if len(step) > 1 else 1))
+        elif step[0] == "pop":
+            toks.append("o%d" % (step[1] if len(step) > 1 else 1))
+        else:
+            toks.append("c")
+    return "stack " + " ".join(toks)
 
 
 def solve_stack(step, stack):
@@ -668,7 +769,8 @@ def describe(cfg):
     return "eoe=%s%s members=[%s] script=[%s]" % (
         cfg["eoe"], (" perturb=%s" % json.dumps(cfg["perturb"], sort_keys=True)) if cfg.get("perturb") else "",
         ", ".join("%s@%dms/pick%d" % (m["mode"], m["delay_ms"], m["pick"]) for m in cfg["members"]),
-        "; ".join(s[0] + (" " + show(s[1]) if s[0] in ("assert", "is_sat", "is_valid", "is_unsat") else "")
+        "; ".join(s[0] + (" " + show(s[1]) if s[0] in ("assert", "is_sat", "is_valid", "is_unsat") else
+                         "(%d)" % s[1] if s[0] in ("push", "pop") and len(s) > 1 else "")
                   for s in cfg["script"]))
 
 
@@ -703,6 +805,10 @@ def check_result(ctx, cfg, records, blocked, lean_sets, reports):
         return
     base = {"shape": shape_of(cfg), "eoe": str(bool(cfg["eoe"]))}
     sat_now = None        # (winner, expected model) after a sat verdict, until the next non-query step
+    live = live_ids(cfg)
+    lean_live = lean_sets.get(stack_line(cfg))
+    fid = {}              # assert step -> first assert step with the same FNode (the worker's `canon`)
+    stack_reported = False
     for k, step in enumerate(cfg["script"]):
         op = step[0]
         rec = by_step.get(k)
@@ -728,6 +834,31 @@ def check_result(ctx, cfg, records, blocked, lean_sets, reports):
             else:
                 reports.append(("infra", None, "worker ended before step %d (%s) without a report" % (k, op)))
             return
+        if op == "assert" and "fid" in rec:
+            fid[k] = rec["fid"]
+        if "assertions" in rec:
+            # the live assertions: harness bookkeeping = Lean specification of the SMT-LIB stack = the real portfolio
+            # = a twin portfolio driven with single push() / pop() calls
+            if lean_live is not None and lean_live[k] != live[k]:
+                reports.append(("l", None, "assertion stack: the Lean specification says %s, the harness %s after step %d"
+                                % (lean_live[k], live[k], k)))
+            want = [fid.get(i, i) for i in live[k]]
+            what = None
+            if rec["assertions"] != want:
+                what = "after %s the live assertions are %s, expected %s" % (
+                    op + ("(%d)" % step[1] if op in ("push", "pop") and len(step) > 1 else ""),
+                    [show(cfg["script"][i][1]) if i >= 0 else "?" for i in rec["assertions"]],
+                    [show(cfg["script"][i][1]) for i in want])
+                sig = dict(base, oracle="assertion-stack", call=op,
+                           levels=str(step[1] if op in ("push", "pop") and len(step) > 1 else 1))
+            elif rec.get("twin") != rec["assertions"]:
+                what = "after %s the live assertions %s differ from those of the twin driven by single pushes/pops %s" % (
+                    op, rec["assertions"], rec.get("twin"))
+                sig = dict(base, oracle="twin-single-pops", call=op)
+            if what and not stack_reported:
+                stack_reported = True
+                reports.append(("k", None, what))
+                reports.append(("s", sig, what))
         if op in ("assert", "push", "pop"):
             sat_now = None
             if "exc" in rec:
@@ -787,12 +918,18 @@ def check_result(ctx, cfg, records, blocked, lean_sets, reports):
                 if rec.get("others_alive"):
                     reports.append(("k", None, "losers_dead: after solve() returned, member processes %s are still alive"
                                     % rec["others_alive"]))
+                    reports.append(("s", dict(base, oracle="leaked-member", call=op),
+                                    "after %s() returned, member processes %s other than the winner are still alive"
+                                    % (op, rec["others_alive"])))
                 if observed == "v:T" and truth and w is not None and 0 <= w < len(cfg["members"]):
                     sat_now = (w, sols[cfg["members"][w]["pick"] % len(sols)])
             else:
                 if rec.get("others_alive"):
                     reports.append(("k", None, "losers_dead: after solve() raised, member processes %s are still alive"
                                     % rec["others_alive"]))
+                    reports.append(("s", dict(base, oracle="leaked-member", call=op),
+                                    "after %s() raised %s, member processes %s are still alive"
+                                    % (op, observed, rec["others_alive"])))
             continue
         # queries
         if sat_now is None or rec.get("skipped"):
@@ -835,6 +972,8 @@ def check_result(ctx, cfg, records, blocked, lean_sets, reports):
                         "exit() raised %s: %s" % (ex[0]["exc"], ex[0].get("msg"))))
     if ex and ex[0].get("left"):
         reports.append(("k", None, "after exit() member processes %s are still alive" % ex[0]["left"]))
+        reports.append(("s", dict(base, oracle="leaked-member", call="exit"),
+                        "after exit() member processes %s are still alive" % ex[0]["left"]))
     if not ex and blocked:
         reports.append(("s", dict(base, oracle="outcome-set", call="exit", observed="blocked"), "exit() blocked (%s)" % blocked))
 
@@ -848,6 +987,8 @@ def flush_reports(ctx, cfg, records, reports, attempts=None):
             ctx.report_s(sig, what + " -- " + describe(cfg), rep)
         elif kind == "k":
             ctx.report_k(what + " -- " + describe(cfg), rep)
+        elif kind == "l":
+            ctx.report_l(what + " -- " + describe(cfg))
         else:
             ctx.infra(what + " -- " + describe(cfg))
 
@@ -856,9 +997,15 @@ def lean_outcome_sets(ctx, cfgs):
     """One driver request per distinct (configuration, truth) pair; returns line -> (solve set, query set)."""
     lines = set()
     for cfg in cfgs:
-        lines.add(lean_line(cfg, True))
-        lines.add(lean_line(cfg, False))
+        stacks = walk(cfg)
+        for k, step in enumerate(cfg["script"]):
+            if step[0] in SOLVE_OPS:
+                lines.add(lean_line(cfg, bool(solutions(solve_stack(step, stacks[k]))[1])))
+        lines.add(stack_line(cfg))
     lines = sorted(lines)
+    # the driver shards are contiguous chunks: interleave, so that the expensive requests are spread evenly
+    sh = max(1, ctx.workers)
+    lines = [l for i in range(sh) for l in lines[i::sh]]
     sets = {}
     try:
         answers = ctx.lean_run_sharded("C19", lines) if len(lines) >= 200 else ctx.lean_run("C19", lines)
@@ -868,6 +1015,9 @@ def lean_outcome_sets(ctx, cfgs):
     for line, ans in zip(lines, answers):
         if not ans.startswith("ok "):
             ctx.report_l("driver C19: unexpected answer %r to %r" % (ans, line))
+            continue
+        if line.startswith("stack "):
+            sets[line] = [[] if t == "-" else [int(x) for x in t.split(",")] for t in ans[3:].split("|")]
             continue
         parts = [p.strip() for p in ans[3:].split("|")]
         toset = lambda s: set() if s == "-" else set(s.split(","))
@@ -882,7 +1032,7 @@ def lean_outcome_sets(ctx, cfgs):
             for kv in parts[3].split():
                 k, v = kv.split("=")
                 ctx.extra[k] = ctx.extra.get(k, 0) + int(v)
-    ctx.extra["model_configurations_explored"] = len(sets)
+    ctx.extra["model_configurations_explored"] = len([k for k in sets if not k.startswith("stack ")])
     ctx.extra["exhaustive"] = "the model's schedules are enumerated completely for every configuration used " \
                               "(states/transitions = totals); the schedules of the real system are sampled"
     return sets
